@@ -27,7 +27,13 @@ META = {
             "the 14 vendors. Correspondence: Coq compares model and real make_formatter(indent).join / "
             "parse_to_tree(text, fmt.split) / re-join outcomes and evaluates the round-trip predicate on the real "
             "outcomes for all 14 vendors (random trees to depth 6 over a vendor-aware alphabet with near-delimiter "
-            "words, exhaustive small trees per vendor).",
+            "words, exhaustive small trees per vendor; a 'source-words' stream: every string constant of the tree's "
+            "annet/annlib/tabparser.py and annet/vendors/library/*.py - whatever words the formatters treat specially in "
+            "this version of the source - used as a row and as the first words of a block header, for every vendor; and "
+            "HISTORIES: for every vendor a fresh interpreter in which that vendor's formatter is the first one used, "
+            "followed by all the others (thorough: also reversed and random orders); a case that fails only after other "
+            "formatters were used is re-run alone and with the shortest history tried that reproduces it, and reported as "
+            "round-trip-depends-on-formatters-used-before with that history).",
     "technique": "Coq induction over forests on top of the C05 offside theorem and the rebuild lemma; generated vendor "
                  "table; vm_compute differential check against the real formatters",
     "note": "Guards (each with a refutation witness replayed on the real code): Cisco rows starting with "
@@ -193,6 +199,65 @@ EXH_ROWS = {
 }
 
 
+def source_words() -> list[str]:
+    """The string constants (docstrings excluded) of the formatter module and of the vendor modules of the tree
+    under test, stripped: the words the formatters themselves treat specially - block-exit dispatch prefixes,
+    policy-end words, wrappers, delimiters - whatever they are in this version of the source.  Used as ROWS (alone
+    and as the first words of a longer row), so that a word the code starts to treat specially is exercised
+    without the harness knowing it."""
+    import ast
+    files = [core.REPO / "annet" / "annlib" / "tabparser.py"] + sorted((core.REPO / "annet" / "vendors" / "library").glob("*.py"))
+    words: set[str] = set()
+    for f in files:
+        try:
+            mod = ast.parse(f.read_text())
+        except (OSError, SyntaxError):
+            continue
+        docs = set()
+        for n in ast.walk(mod):
+            if isinstance(n, (ast.FunctionDef, ast.AsyncFunctionDef, ast.ClassDef, ast.Module)) and n.body and \
+                    isinstance(n.body[0], ast.Expr) and isinstance(n.body[0].value, ast.Constant):
+                docs.add(id(n.body[0].value))
+        for n in ast.walk(mod):
+            if isinstance(n, ast.Constant) and isinstance(n.value, str) and id(n) not in docs:
+                w = n.value.strip()
+                if w and len(w) <= 40 and all(32 <= ord(ch) <= 126 for ch in w):
+                    words.add(w)
+    return sorted(words)
+
+
+def dictionary_cases(rng, words):
+    """per vendor and source word w, one tree: `w X1` as a block header with a child, a following sibling and a
+    shallower row after it; and, in the next block, w alone as a leaf followed by a sibling"""
+    for v in VENDORS:
+        for w in words:
+            a, b, c, d, e, f = rng.sample(SAFE, 6)
+            yield v, [[a, [[w + " X1", [[b, []]]], [c, []]]], [d, [[w, []], [e, []]]], [f, []]]
+
+
+def sessions(ctx) -> list[list[dict]]:
+    """History: every list is run by ONE fresh interpreter, in order.  For every vendor a session in which that
+    vendor's formatter is the first one used, followed by all the others (state a formatter leaves on a class or
+    a module - caches, compiled tables - would be built from the first user's attributes); thorough: also the
+    reversed orders and random permutations."""
+    rng = ctx.rng("sessions")
+    orders = [VENDORS[k:] + VENDORS[:k] for k in range(len(VENDORS))]
+    if ctx.thorough:
+        orders += [list(reversed(o)) for o in orders]
+        for _ in range(30):
+            o = list(VENDORS)
+            rng.shuffle(o)
+            orders.append(o)
+    out = []
+    for o in orders:
+        ses = []
+        for v in o + o[:2]:
+            t = ros_tree(rng) if v == "routeros" else rand_tree(rng, SAFE, [], 0.0, 4)
+            ses.append({"vendor": v, "indent": rng.choice(INDENTS[:5]), "tree": t, "src": "session"})
+        out.append(ses)
+    return out
+
+
 def depth(t):
     return 0 if not t else 1 + max(depth(k) for _, k in t)
 
@@ -224,6 +289,10 @@ def gen_cases(ctx) -> list[dict]:
         add("routeros", rng.choice(INDENTS), ros_tree(rng), "routeros-sections")
     for _ in range(200 if ctx.thorough else 40):
         add("cisco", rng.choice(INDENTS), cisco_balanced(rng), "cisco-closed-address-family")
+    words = source_words()
+    for v, t in dictionary_cases(rng, words):
+        add(v, "  ", t, "source-words")
+    ctx.coverage["source_words"] = {"count": len(words), "first": words[:12]}
     # exhaustive small scope
     n_exh = 0
     reps = ("pc", "huawei", "cisco", "juniper", "routeros")      # one vendor per formatter family / split kind
@@ -366,6 +435,34 @@ def shrink(case, sig_guarded: bool, rounds=8):
     return cur
 
 
+def _fails(case, out, tag) -> bool:
+    res, odd = evaluate([case], [out], tag=tag)
+    return bool(res["holds"] or odd)
+
+
+def history_dependent(case, history):
+    """None when the case fails in a fresh interpreter too; else (shortest history tried that reproduces the
+    failure, outcome after it, outcome alone).  The real formatters and the Coq predicate are re-run."""
+    alone = core.run_impl("c04_runner.py", [case])[0]
+    if _fails(case, alone, "hist_alone"):
+        return None
+    tried = []
+    last_of = {}
+    for x in history:
+        if x["vendor"] != case["vendor"]:
+            last_of[x["vendor"]] = x
+    for h in [history[:1]] + [[x] for x in last_of.values()] + [history]:
+        if not h:
+            continue
+        if h in tried:
+            continue
+        tried.append(h)
+        out = core.run_impl("c04_runner.py", h + [case])[-1]
+        if _fails(case, out, "hist_with"):
+            return h, out, alone
+    return None
+
+
 def run(ctx):
     rep = core.proof_stage(ctx, THEOREM_FILE)
     gen = ctx.coverage["gen_tables"]
@@ -384,6 +481,29 @@ def run(ctx):
             replay={"registered": reg}, no_input=True))
     cases = gen_cases(ctx)
     outs = core.run_impl_sharded("c04_runner.py", [strip_case(c) for c in cases])
+    # histories: each session is run by one fresh interpreter in the given order; every outcome is judged like
+    # any other case (the model and the property know no history)
+    from concurrent.futures import ThreadPoolExecutor
+    ses = sessions(ctx)
+    with ThreadPoolExecutor(max_workers=core.NPROC) as ex:
+        ses_outs = list(ex.map(lambda s_: core.run_impl("c04_runner.py", [strip_case(c) for c in s_]), ses))
+    # (the sharded run above is a history too: case i ran after the cases i - k*shards of its shard)
+    n_sh = min(core.NPROC, max(1, len(cases) // 50))
+    n_plain = len(cases)
+    hist: dict[int, list] = {}
+
+    def history_of(i):
+        if i in hist:
+            return hist[i]
+        return [strip_case(cases[j]) for j in range(i % n_sh, i, n_sh)]
+
+    for s_, o_ in zip(ses, ses_outs):
+        for k, (c, o) in enumerate(zip(s_, o_)):
+            hist[len(cases)] = [strip_case(x) for x in s_[:k]]
+            cases.append(c)
+            outs.append(o)
+    ctx.coverage["sessions"] = {"count": len(ses), "cases": len(cases) - n_plain,
+                                "first_vendor_of_each": sorted({s_[0]["vendor"] for s_ in ses})}
     res, odd = evaluate(cases, outs)
     unguarded = set(res["guarded"])
     outside = set(res["inwf"])
@@ -400,6 +520,23 @@ def run(ctx):
         sig = signature(cases[i], i not in unguarded)
         if sig in reported:
             continue
+        if history_of(i):
+            hsig = f"C04/{cases[i]['vendor']}/round-trip-depends-on-formatters-used-before"
+            if hsig in reported:
+                continue
+            dep = history_dependent(strip_case(cases[i]), history_of(i))
+            if dep is not None:
+                sig = hsig
+                reported.add(sig)
+                ctx.add_violation(core.Violation(
+                    signature=sig,
+                    what="a tree of the property's domain round-trips when its vendor's formatter is the first one used "
+                         "by the interpreter, and does not (join -> split -> parse_to_tree gives another tree, or "
+                         "re-rendering is not a fixed point) after the listed cases of other vendors were run in the "
+                         "same process",
+                    replay={"case": strip_case(cases[i]), "history": dep[0], "impl": dep[1],
+                            "impl_alone": dep[2]}))
+                continue
         reported.add(sig)
         # listed findings carry their own minimal example; new ones are shrunk (implementation + Coq predicate re-run)
         small = strip_case(cases[i]) if (sig in known_open or len(reported) > 4) else shrink(strip_case(cases[i]), i not in unguarded)
@@ -465,7 +602,10 @@ def run(ctx):
 
 def replay(ctx, doc):
     c = doc["replay"]["case"]
-    out = core.run_impl("c04_runner.py", [strip_case(c)])[0]
+    history = doc["replay"].get("history") or []
+    if history:
+        print("history (same interpreter, in this order):", [h["vendor"] for h in history])
+    out = core.run_impl("c04_runner.py", [strip_case(h) for h in history] + [strip_case(c)])[-1]
     res, odd = evaluate([c], [out], tag="replay")
     print("impl:", out)
     print("holds:", not res["holds"] and not odd, "agree:", not res["agree"], "in-domain:", not res["inwf"],
